@@ -20,7 +20,7 @@ ASSUMPTIONS = ['flow sizes are multiples of the MSS (512)', 'completion is deman
                'simulated-time bound; runs that hit the step cap before that bound are inconclusive, not violations',
                'the no-duplicate clause applies only to fault-free runs in which the path RTT was below the sender\'s RTO at '
                'every transmission']
-PROBES = ['second_connection', 'deadline_after_last_segment', 'synchronous_path', 'real_path', 'tail_drop_on_path', 'sub_sink', 'sub_e2e', 'sub_clean', 'rto_fired', 'fast_retransmit', 'ack_lost', 'data_lost', 'duplicate_delivered',
+PROBES = ['sub_blackhole', 'second_connection', 'deadline_after_last_segment', 'synchronous_path', 'real_path', 'tail_drop_on_path', 'sub_sink', 'sub_e2e', 'sub_clean', 'rto_fired', 'fast_retransmit', 'ack_lost', 'data_lost', 'duplicate_delivered',
           'overtaken', 'cc_cubic', 'completed', 'inconclusive', 'first_segment_missing', 'sink_duplicate', 'sink_gap',
           'clean_precondition_held']
 
@@ -69,6 +69,12 @@ def gen(rng, tier):
                         'wire': rng.choice([0, 0.01, 0.05]), 'wire_ack': rng.choice([0, 0.01, 0.05])}
         case['d_data'] = rng.choice([0, 0.01, 0.05])
         case['d_ack'] = rng.choice([0, 0.01, 0.05])
+    if rng.random() < 0.03:
+        # the peer never answers (every data packet is lost): nothing can complete, but the run must come to an end
+        # without raising once the retransmission timeout has been doubled beyond every finite number
+        return {'sub': 'blackhole', 'cc': case['cc'], 'segments': rng.randint(1, 3), 'rtt_est': case['rtt_est'],
+                'cwnd': case['cwnd'], 'ssthresh': case['ssthresh'], 'd_data': 0.05, 'd_ack': 0.05,
+                'faults_data': {}, 'faults_ack': {}}
     if rng.random() < 0.1 and not case.get('path'):
         # the two ends wired to each other directly: no delay at all, every hand-over happens inside put()
         case['sync_path'] = rng.choice(['both', 'both', 'data', 'ack'])
@@ -184,6 +190,26 @@ def run_sink(w, case):
     w.run(max_steps=20000)
     nontrivial = arr != sorted(set(arr))
     return viol, stats, nontrivial
+
+
+class BlackHole:
+    def put(self, p):
+        pass
+
+
+def run_blackhole(w, case):
+    viol, stats = [], {'sub_blackhole': 1}
+    sender, flow = make_sender(w, case, BlackHole())
+    w.run(max_steps=200000)
+    for r in w.log:
+        if r[0] == 'ERR':
+            viol.append(('C16.2/%s' % (r[4][1] if isinstance(r[4], tuple) and len(r[4]) > 1 else 'exc'),
+                         'the TCP run raised %r' % (r[4],)))
+            return viol, stats, True
+    if not w.quiescent:
+        viol.append(('C16.2', 'a sender whose peer never answers keeps the simulation alive for ever (200000 steps, now=%r)'
+                     % (w.env.now,)))
+    return viol, stats, True
 
 
 def run_e2e(w, case):
@@ -314,6 +340,8 @@ def run(case):
     w = NetWorld()
     if case.get('sub') == 'sink':
         viol, stats, nt = run_sink(w, case)
+    elif case.get('sub') == 'blackhole':
+        viol, stats, nt = run_blackhole(w, case)
     else:
         if case.get('deadline') and case.get('sub') != 'clean' and 'finish' not in case:
             # dry run: when did the last new segment go out for the first time?
